@@ -5,6 +5,9 @@ from riolib.sym import Sym, for_loops
 from . import layers as LY
 from .c01 import any_host_table
 
+THOROUGH_CONFIGS = ['dot', 'router']
+
+
 PREDICATE_ADTS = ("http::request::Request", "router::route_ip::RouteIp")
 PREDICATE_NAMES = ("match_value", "match_ip", "match_datetime")
 TREE_PAIR = {"find": "trace"}
